@@ -148,6 +148,9 @@ YamlChecks(vs, r) ==
        IN IF sameLen /\ AllSame(d.vs, [i \in 1..Len(vs) |-> Norm(vs[i])], 1) THEN << Passed("yaml.roundtrip", 1) >>
           ELSE IF sameLen /\ AllSame(d.vs, [i \in 1..Len(vs) |-> Norm(BigAsString(vs[i]))], 1)
                THEN << [k |-> "yaml.roundtrip", i |-> 1, ok |-> FALSE, exp |-> exp, dev |-> "bigint-as-string"] >>
+               \* the same defect as above where the reader does not reject the text but strips the leading blanks the indicator miscounts
+               ELSE IF "ind" \in DOMAIN r /\ r.ind \notin {1, 2} /\ (\E i \in 1..(Len(r.text) - 1) : r.text[i] \in {124, 62} /\ r.text[i + 1] >= 48 /\ r.text[i + 1] <= 57)
+               THEN << [k |-> "yaml.roundtrip", i |-> 1, ok |-> FALSE, exp |-> exp, dev |-> "indent-block-scalar"] >>
                ELSE << Failed("yaml.roundtrip", 1, exp) >>
 
 \* --yaml-input: whatever YAML document was read, what `gojq --yaml-input -c .` prints must be well-formed JSON.
